@@ -94,7 +94,7 @@ Section Roundtrip.
   Qed.
 
   (* top-level names for the local fixpoints of the model *)
-  Fixpoint enc_fields (fs : list field) (vs : list value) : list (string * json) :=
+  Fixpoint enc_fields (fs : list field) (vs : list value) {struct vs} : list (string * json) :=
     match vs, fs with
     | v' :: vs', f :: fs' =>
         if (f_omit f && is_empty (f_ty f) v')%bool then enc_fields fs' vs'
@@ -112,7 +112,7 @@ Section Roundtrip.
         end
     end.
 
-  Fixpoint norm_fields (fs : list field) (vs : list value) : list value :=
+  Fixpoint norm_fields (fs : list field) (vs : list value) {struct vs} : list value :=
     match vs, fs with
     | v' :: vs', f :: fs' =>
         (if (f_omit f && is_empty (f_ty f) v')%bool then zero (f_ty f) else normt (f_ty f) v')
@@ -120,7 +120,7 @@ Section Roundtrip.
     | _, _ => []
     end.
 
-  Fixpoint typed_fields (fs : list field) (vs : list value) : bool :=
+  Fixpoint typed_fields (fs : list field) (vs : list value) {struct vs} : bool :=
     match vs, fs with
     | [], [] => true
     | v' :: vs', f :: fs' => has_type (f_ty f) v' && typed_fields fs' vs'
@@ -130,17 +130,13 @@ Section Roundtrip.
   Lemma enc_struct t id vs :
     kind_of t = KStruct id -> enc t (VStruct vs) = JObj (enc_fields (fields_of id) vs).
   Proof.
-    intros Hk. cbn [JsonCodec.enc]. rewrite Hk. f_equal.
-    generalize (fields_of id) as fs. induction vs as [|v vs IH]; intros fs; [reflexivity|].
-    destruct fs as [|f fs]; [reflexivity|]. cbn [enc_fields]. rewrite <- IH. reflexivity.
+    intros Hk. cbn [JsonCodec.enc]. rewrite Hk. reflexivity.
   Qed.
 
   Lemma normt_struct t id vs :
     kind_of t = KStruct id -> normt t (VStruct vs) = VStruct (norm_fields (fields_of id) vs).
   Proof.
-    intros Hk. cbn [JsonCodec.normt]. rewrite Hk. f_equal.
-    generalize (fields_of id) as fs. induction vs as [|v vs IH]; intros fs; [reflexivity|].
-    destruct fs as [|f fs]; [reflexivity|]. cbn [norm_fields]. rewrite <- IH. reflexivity.
+    intros Hk. cbn [JsonCodec.normt]. rewrite Hk. reflexivity.
   Qed.
 
   Lemma has_kind_struct id vs :
@@ -149,7 +145,8 @@ Section Roundtrip.
     cbn [JsonCodec.has_kind].
     generalize (fields_of id) as fs. induction vs as [|v vs IH]; intros fs.
     - destruct fs; reflexivity.
-    - destruct fs as [|f fs]; [reflexivity|]. cbn [typed_fields]. rewrite <- IH.
+    - destruct fs as [|f fs]; [reflexivity|]. cbn [typed_fields].
+      etransitivity; [| apply f_equal; apply (IH fs)].
       unfold JsonCodec.has_type. destruct (f_ty f); reflexivity.
   Qed.
 
@@ -180,7 +177,7 @@ Section Roundtrip.
   Proof. intros Hnd Hin. unfold find_field. rewrite find_exact by assumption. reflexivity. Qed.
 
   (* the decoded members of an encoded struct, given the round trip for the parts *)
-  Fixpoint dl_norm (fs : list field) (vs : list value) : list (string * option value) :=
+  Fixpoint dl_norm (fs : list field) (vs : list value) {struct vs} : list (string * option value) :=
     match vs, fs with
     | v' :: vs', f :: fs' =>
         if (f_omit f && is_empty (f_ty f) v')%bool then dl_norm fs' vs'
@@ -241,7 +238,7 @@ Section Roundtrip.
       cbn [norm_fields map].
       set (hd := if (f_omit f && is_empty (f_ty f) v)%bool then []
                  else [(f_json f, Some (normt (f_ty f) v))]).
-      assert (Hdl : dl_norm (f :: fs) (v :: vs) = hd ++ dl_norm fs vs).
+      assert (Hdl : dl_norm (f :: fs) (v :: vs) = (hd ++ dl_norm fs vs)%list).
       { cbn [dl_norm]. unfold hd. destruct (f_omit f && is_empty (f_ty f) v)%bool; reflexivity. }
       rewrite Hdl. f_equal.
       + unfold sel. rewrite assoc_last_app.
